@@ -6,7 +6,9 @@ import (
 	"fmt"
 	"math"
 	"reflect"
+	"sort"
 	"strings"
+	"time"
 
 	"github.com/parquet-go/parquet-go"
 	"github.com/parquet-go/parquet-go/format"
@@ -73,8 +75,49 @@ func TripleOf(v parquet.Value) Triple {
 	return Triple{Val: ValueKey(v), Rep: v.RepetitionLevel(), Def: v.DefinitionLevel()}
 }
 
-// leafKey: canonical text of a Go leaf value for a leaf of the given physical kind.
-func leafKey(kind parquet.Kind, v reflect.Value) string {
+// timeLeaf: the documented mapping of a time.Time onto a leaf — TIMESTAMP(unit): the count of
+// units since the Unix epoch; DATE: the number of days since the Unix epoch.
+func timeLeaf(typ parquet.Type, t time.Time) reflect.Value {
+	if lt := typ.LogicalType(); lt != nil {
+		switch ltv := lt.Value.(type) {
+		case *format.DateType:
+			sec := t.Unix()
+			days := sec / 86400
+			if sec%86400 < 0 {
+				days--
+			}
+			return reflect.ValueOf(int32(days))
+		case *format.TimestampType:
+			switch ltv.Unit.Value.(type) {
+			case *format.MilliSeconds:
+				return reflect.ValueOf(t.UnixMilli())
+			case *format.MicroSeconds:
+				return reflect.ValueOf(t.UnixMicro())
+			}
+		}
+	}
+	return reflect.ValueOf(t.UnixNano())
+}
+
+// uuidBytes parses the text form of a UUID (the documented content of a string field with the
+// uuid tag); ok = false when the text is not a UUID.
+func uuidBytes(s string) ([]byte, bool) {
+	h := strings.ReplaceAll(s, "-", "")
+	b, err := hex.DecodeString(h)
+	if err != nil || len(b) != 16 || len(s) != 36 {
+		return nil, false
+	}
+	return b, true
+}
+
+// leafKey: canonical text of a Go leaf value for a leaf of the given type.
+func leafKey(typ parquet.Type, v reflect.Value) string {
+	kind := typ.Kind()
+	if v.Type() == timeType {
+		c := reflect.New(timeType).Elem()
+		c.Set(v)
+		v = timeLeaf(typ, c.Interface().(time.Time))
+	}
 	switch kind {
 	case parquet.Boolean:
 		if v.Bool() {
@@ -114,6 +157,11 @@ func leafKey(kind parquet.Kind, v reflect.Value) string {
 	default:
 		switch v.Kind() {
 		case reflect.String:
+			if kind == parquet.FixedLenByteArray {
+				if b, ok := uuidBytes(v.String()); ok {
+					return hexOrDash(b)
+				}
+			}
 			return hexOrDash([]byte(v.String()))
 		case reflect.Slice:
 			return hexOrDash(v.Bytes())
@@ -136,6 +184,11 @@ func isNullGo(v reflect.Value) bool {
 		return true
 	case reflect.Ptr, reflect.Interface, reflect.Slice, reflect.Map:
 		return v.IsNil()
+	case reflect.Struct:
+		if v.Type() == timeType {
+			return timeOf(v).IsZero() // the zero instant
+		}
+		return false // a struct value is always present
 	case reflect.Float32, reflect.Float64:
 		// -0.0 is a value: only the all-zero bit pattern is the zero that maps to null
 		// (C01 demands bit-identical floats, which a null could not give back)
@@ -266,11 +319,42 @@ func (s *Shredder) node(n parquet.Node, mode int, lv levels, v reflect.Value, sb
 			sb.WriteString(")")
 		})
 		sb.WriteString(")")
+	case isMapNode(n) && (!v.IsValid() || v.Kind() == reflect.Map):
+		// group (MAP) { repeated group key_value { key; value } }: in the Lean model
+		// S( L( S(key,value), ... ) ); a Go map has no entry order, the reference takes the
+		// entries in key order and streams of map columns are compared up to entry order
+		kv := n.Fields()[0]
+		key, val := kv.Fields()[0], kv.Fields()[1]
+		var entries []reflect.Value // (k, v) pairs, addressable copies
+		if v.IsValid() {
+			keys := v.MapKeys()
+			sort.Slice(keys, func(i, j int) bool { return fmt.Sprint(keys[i].Interface()) < fmt.Sprint(keys[j].Interface()) })
+			for _, k := range keys {
+				kc := reflect.New(k.Type()).Elem()
+				kc.Set(k)
+				vc := reflect.New(v.Type().Elem()).Elem()
+				vc.Set(v.MapIndex(k))
+				entries = append(entries, kc, vc)
+			}
+		}
+		sb.WriteString("S(")
+		s.repeatedN(lv, len(entries)/2, sb, func(i int, lv levels, sb *strings.Builder) {
+			var k, e reflect.Value
+			if i >= 0 {
+				k, e = entries[2*i], entries[2*i+1]
+			}
+			sb.WriteString("S(")
+			s.node(key, modeAsIs, lv, k, sb)
+			sb.WriteString(",")
+			s.node(val, modeAsIs, lv, e, sb)
+			sb.WriteString(")")
+		})
+		sb.WriteString(")")
 	case n.Leaf():
 		t := Triple{Rep: lv.rep, Def: lv.def, Null: true}
 		if v.IsValid() {
 			t.Null = false
-			t.Val = leafKey(n.Type().Kind(), v)
+			t.Val = leafKey(n.Type(), v)
 			fmt.Fprintf(sb, "P%d", s.id(t.Val))
 		} else {
 			sb.WriteString("N")
@@ -298,24 +382,51 @@ func (s *Shredder) node(n parquet.Node, mode int, lv levels, v reflect.Value, sb
 
 func (s *Shredder) repeated(n parquet.Node, lv levels, v reflect.Value, sb *strings.Builder,
 	each func(e reflect.Value, lv levels, sb *strings.Builder)) {
-	if !v.IsValid() || v.Len() == 0 {
+	cnt := 0
+	if v.IsValid() {
+		cnt = v.Len()
+	}
+	s.repeatedN(lv, cnt, sb, func(i int, lv levels, sb *strings.Builder) {
+		if i < 0 {
+			each(reflect.Value{}, lv, sb)
+		} else {
+			each(v.Index(i), lv, sb)
+		}
+	})
+}
+
+// repeatedN: a repeated node with cnt elements; each(-1) emits the placeholder of the empty list.
+func (s *Shredder) repeatedN(lv levels, cnt int, sb *strings.Builder, each func(i int, lv levels, sb *strings.Builder)) {
+	if cnt == 0 {
 		sb.WriteString("L()")
-		each(reflect.Value{}, lv, new(strings.Builder))
+		each(-1, lv, new(strings.Builder))
 		return
 	}
 	lv.depth++
 	lv.def++
 	sb.WriteString("L(")
 	start := s.col
-	for i := 0; i < v.Len(); i++ {
+	for i := 0; i < cnt; i++ {
 		if i > 0 {
 			sb.WriteString(",")
 		}
 		s.col = start // every element feeds the same leaf columns
-		each(v.Index(i), lv, sb)
+		each(i, lv, sb)
 		lv.rep = lv.depth
 	}
 	sb.WriteString(")")
+}
+
+func isMapNode(n parquet.Node) bool {
+	if n.Leaf() {
+		return false
+	}
+	lt := n.Type().LogicalType()
+	if lt == nil {
+		return false
+	}
+	_, ok := lt.Value.(*format.MapType)
+	return ok
 }
 
 // NodeText renders the schema in the text form of the Lean model:
